@@ -299,6 +299,7 @@ impl SharedShape {
 
         // Rollback before the property has added.
         let (mut base, prototype, transitions) = self.rollback_before(&key.property_key);
+        let base_count = base.property_count();
 
         // Apply prototype transition, if it was found.
         if let Some(prototype) = prototype {
@@ -316,6 +317,8 @@ impl SharedShape {
             };
             base = base.insert_property_transition(transition);
         }
+
+        base = self.restore_attributes(base, base_count);
 
         // Determine action to be performed on the storage.
         let action = if slot.attributes.is_accessor_descriptor() {
@@ -385,7 +388,7 @@ impl SharedShape {
                 continue;
             }
 
-            let (current_property_key, slot) = current_shape.property();
+            let (current_property_key, _) = current_shape.property();
 
             if current_shape.flags().is_insert_transition_type() && &current_property_key == key {
                 let base = if let Some(base) = current_shape.previous() {
@@ -401,9 +404,15 @@ impl SharedShape {
             // this can happen if a configure was called after inserting it into the shape
             if &current_property_key != key {
                 // Only take the latest changes to a property. To try to build a smaller tree.
+                // A configure transition does not record which property it changed, so the
+                // attributes are read from the table of `self`, which has the latest ones.
+                let attributes = self
+                    .property_table()
+                    .get_expect(&current_property_key)
+                    .attributes;
                 transitions
                     .entry(current_property_key)
-                    .or_insert(slot.attributes);
+                    .or_insert(attributes);
             }
 
             current = current_shape.previous();
@@ -415,6 +424,7 @@ impl SharedShape {
     /// Remove a property from [`SharedShape`], returning the new [`SharedShape`].
     pub(crate) fn remove_property_transition(&self, key: &PropertyKey) -> Self {
         let (mut base, prototype, transitions) = self.rollback_before(key);
+        let base_count = base.property_count();
 
         // Apply prototype transition, if it was found.
         if let Some(prototype) = prototype {
@@ -429,7 +439,35 @@ impl SharedShape {
             base = base.insert_property_transition(transition);
         }
 
-        base
+        self.restore_attributes(base, base_count)
+    }
+
+    /// Re-applies to `rebuilt` the attribute changes that `self` made to its first `count`
+    /// properties after the point a rollback went back to (those properties are part of the
+    /// rollback base, so replaying the insert transitions does not bring the changes back).
+    fn restore_attributes(&self, mut rebuilt: Self, count: u32) -> Self {
+        let current: Vec<(PropertyKey, SlotAttributes)> = self
+            .property_table()
+            .inner()
+            .borrow()
+            .keys
+            .iter()
+            .take(count as usize)
+            .map(|(key, slot)| (key.clone(), slot.attributes))
+            .collect();
+
+        for (property_key, attributes) in current {
+            if rebuilt.property_table().get_expect(&property_key).attributes != attributes {
+                rebuilt = rebuilt
+                    .change_attributes_transition(TransitionKey {
+                        property_key,
+                        attributes,
+                    })
+                    .shape;
+            }
+        }
+
+        rebuilt
     }
 
     /// Do a property lookup, returns [`None`] if property not found.
